@@ -148,6 +148,15 @@ def rule_m1(prog: Program, col: Collector) -> None:
                 col.check(bool(guards), ref.where(e.node), ref.short, f"division by {short(D, 50)} (a plain sum, no cancellation) is guarded against zero ({guards})",
                           construct="unguarded-division", necessity="an all-zero game must normalise to zeros, not to NaN")
                 continue
+            # how the surplus was formed: n successive rounded subtractions stored back into the game, or one exactly rounded sum
+            if "read back" in why:
+                exact_sum = any(is_call_to(x, "math.fsum") for ev2 in ft.events for v2 in ev2.data.values() if isinstance(v2, tuple) for x in subterms(v2))
+                col.check(exact_sum, ref.where(e.node), ref.short,
+                          f"the surplus {short(D, 40)} that everything is divided by is one exactly rounded sum (math.fsum), not the residue of successive rounded subtractions",
+                          construct="sequential-subtraction-residue",
+                          necessity="each singleton subtraction rounds; for a nearly additive game the accumulated residue is comparable with the true surplus, so just above the "
+                                    "additive-game guard the quotients are dominated by rounding (values up to 3 % above 1, result no longer superadditive) and just below it an exact "
+                                    "small surplus is flattened to the zero game: no threshold separates the two")
             if not guards:
                 col.violation(ref.where(e.node), ref.short, "unguarded-division", f"division by {short(D, 50)}, which {why}, is not guarded at all", NEC)
             elif "tolerance" in guards:
